@@ -53,12 +53,20 @@ struct Gated {
     go: Receiver<Out>,
 }
 
+/// the last OS-coded error a gated sink returned: (errno, token of that finish)
+static LAST_OS: std::sync::Mutex<(i32, u64)> = std::sync::Mutex::new((0, 0));
+
 impl MetricSink for Gated {
     fn emit(&self, m: &str) -> io::Result<usize> {
         let _ = self.ev.send(Ev::Enter(m.to_string(), std::thread::current().id()));
         match self.go.recv() {
             Ok(Out::Ok) | Err(_) => Ok(m.len()),
             Ok(Out::OkZero) => Ok(0),
+            Ok(Out::Err(k, tok)) if k >= 200 => {
+                // an OS-coded error (no payload): identified by its errno
+                *LAST_OS.lock().unwrap() = ((k - 200) as i32, tok);
+                Err(io::Error::from_raw_os_error((k - 200) as i32))
+            }
             Ok(Out::Err(k, tok)) => Err(tok_err(k, tok)),
             Ok(Out::Panic) => panic!("scripted panic"),
         }
@@ -223,6 +231,12 @@ impl Run {
         if handler {
             let htx = etx.clone();
             b = b.with_error_handler(move |e: io::Error| {
+                if let Some(n) = e.raw_os_error() {
+                    let (last, tok) = *LAST_OS.lock().unwrap();
+                    let t = if last == n { tok.to_string() } else { "x".to_string() };
+                    let _ = htx.send(Ev::Handled(200 + n as usize, t, std::thread::current().id()));
+                    return;
+                }
                 let r = err_repr(&e);
                 let mut it = r.split(':');
                 let k: usize = it.next().unwrap().parse().unwrap_or(99);
@@ -499,6 +513,7 @@ fn run_line(line: &str) -> Option<String> {
         }
         "qlatency" if f.len() == 2 => Some(format!("{} => {}", line, run_latency(f[1].parse().unwrap_or(1)))),
         "qdroprace" if f.len() == 2 => Some(format!("{} => {}", line, run_droprace(f[1].parse().unwrap_or(1)))),
+        "qemitdrop" if f.len() == 2 => Some(format!("{} => {}", line, run_emitdrop(f[1].parse().unwrap_or(1)))),
         "qstress" if f.len() == 4 => {
             let r = run_stress(parse_cap(f[1]), f[2].parse().unwrap_or(2), f[3].parse().unwrap_or(10));
             Some(format!("{} => {}", line, r))
@@ -572,6 +587,20 @@ fn run_stress(cap: Option<usize>, threads: usize, per: usize) -> String {
     while coll.got.lock().unwrap().len() < total && t0.elapsed() < Duration::from_secs(10) {
         std::thread::yield_now();
     }
+    // everything has been handed over: the queue is empty, so one more metric must be accepted (and delivered)
+    let mut total = total;
+    let mut final_refused = false;
+    if coll.got.lock().unwrap().len() == total {
+        if q.emit("final.after.drain").is_ok() {
+            total += 1;
+        } else {
+            final_refused = true;
+        }
+        let t0 = Instant::now();
+        while coll.got.lock().unwrap().len() < total && t0.elapsed() < Duration::from_secs(10) {
+            std::thread::yield_now();
+        }
+    }
     let sub = q.submitted();
     drop(q);
     let t0 = Instant::now();
@@ -579,6 +608,9 @@ fn run_stress(cap: Option<usize>, threads: usize, per: usize) -> String {
         std::thread::yield_now();
     }
     let got = coll.got.lock().unwrap().clone();
+    if final_refused {
+        return "refused-a-metric-on-an-empty-queue-after-the-burst".to_string();
+    }
     if Arc::strong_count(&coll) > 1 {
         return "wrapped-sink-not-released".to_string();
     }
@@ -694,6 +726,43 @@ fn run_droprace(rounds: usize) -> String {
         }
         if !released {
             return format!("wrapped-sink-not-released-after-concurrent-last-drops-round-{}", round);
+        }
+    }
+    "ok".to_string()
+}
+
+/// one metric is handed over; while the worker returns to its loop head a second one is emitted and the
+/// last handle dropped at once: both must be delivered, then the wrapped sink dropped
+fn run_emitdrop(rounds: usize) -> String {
+    let mut rng = Rng::new(rounds as u64 ^ env_seed());
+    for round in 0..rounds {
+        let coll = Arc::new(Collect { got: std::sync::Mutex::new(Vec::new()) });
+        let q = if round % 3 == 0 { QueuingMetricSink::from(CollSink(coll.clone())) } else { QueuingMetricSink::with_capacity(CollSink(coll.clone()), 1 + round % 3) };
+        if q.emit("first").is_err() {
+            return "first-emit-refused".to_string();
+        }
+        // wait until the first metric has been handed over, then a short random spin so that the second emit
+        // lands at different points of the worker's way back to recv()
+        let t0 = Instant::now();
+        while coll.got.lock().unwrap().is_empty() && t0.elapsed() < Duration::from_secs(2) {
+            std::hint::spin_loop();
+        }
+        for _ in 0..rng.below(400) {
+            std::hint::spin_loop();
+        }
+        let second = q.emit("second").is_ok();
+        drop(q);
+        let want = if second { 2 } else { 1 };
+        let t0 = Instant::now();
+        while (Arc::strong_count(&coll) > 1 || coll.got.lock().unwrap().len() < want) && t0.elapsed() < Duration::from_millis(2000) {
+            std::thread::yield_now();
+        }
+        let n = coll.got.lock().unwrap().len();
+        if n < want {
+            return format!("accepted-metric-lost-when-the-last-handle-was-dropped-right-after-the-emit-round-{}", round);
+        }
+        if Arc::strong_count(&coll) > 1 {
+            return format!("wrapped-sink-not-released-round-{}", round);
         }
     }
     "ok".to_string()
@@ -837,7 +906,13 @@ fn random_cases(out: &mut impl Write, rng: &mut Rng, n: usize, maxops: usize, co
             if r < finish_bias {
                 ops.push(match rng.below(6) {
                     0 | 1 => "k".to_string(),
-                    2 => format!("x{}", rng.below(16)),
+                    2 => {
+                        if rng.chance(25) {
+                            format!("x{}", 200 + rng.pick(&[105u64, 111, 11, 90, 2]))
+                        } else {
+                            format!("x{}", rng.below(KINDS.len() as u64))
+                        }
+                    }
                     3 => "p".to_string(),
                     4 => "z".to_string(),
                     _ => "k".to_string(),
@@ -1002,6 +1077,12 @@ fn main() {
     }
     if shard0 {
         if let Some(l) = run_line(&format!("qdroprace {}", if tier == "quick" { 300 } else { 5000 })) {
+            writeln!(out, "{}", l).unwrap();
+            extra += 1;
+        }
+    }
+    if SHARD_K.load(Ordering::Relaxed) == 1 % SHARD_N.load(Ordering::Relaxed) {
+        if let Some(l) = run_line(&format!("qemitdrop {}", if tier == "quick" { 20000 } else { 400000 })) {
             writeln!(out, "{}", l).unwrap();
             extra += 1;
         }
